@@ -9,11 +9,11 @@ CONSTANTS
   PubPWs = {"pub1"}
   Names = {"alice"}
   XNames = {"xacct"}
-  ImpIds = {}
+  ImpIds = {"p1"}
   MaxSync = 0
   Outcomes = {"commit", "rollback"}
-  Acts = {"NextAddr", "Lookup", "NewAccount", "ImportXpub", "Rename", "Unlock", "Lock", "Restart"}
-  NoRollback = {"NextAddr", "NewAccount", "Rename"}
+  Acts = {"NextAddr", "Lookup", "NewAccount", "ImportXpub", "Import", "Rename", "Unlock", "Lock", "Restart"}
+  NoRollback = {"NextAddr", "NewAccount", "Rename", "Import"}
   MaxHist = 60
   FullHist = FALSE
 INIT Init
